@@ -2,6 +2,7 @@
 From Coq Require Import List Bool Arith String.
 Import ListNotations.
 From Lime Require Import Hs.Types Hs.Server Hs.Monitor Hs.ServerFacts Hs.MonitorFacts Props.HsCommon.
+From Lime Require Import Hs.Client Hs.Interop Hs.InteropSound.
 From Lime Require Import Hs.Builder Hs.BuilderFacts.
 Open Scope string_scope.
 Open Scope list_scope.
@@ -118,3 +119,20 @@ Example C03_builder_example :
   existsb (fun e => match e with Sent s _ => state_eqb (ss_state s) SEstablished | _ => false end) (run 1) = true /\
   existsb (fun e => match e with Sent s _ => state_eqb (ss_state s) SEstablished | _ => false end) (run 2) = false.
 Proof. vm_compute. auto. Qed.
+
+(* Both ends (Hs/Interop.v, Hs/InteropSound.v): Models B and C connected the way the connection connects them.
+   Whatever the two configurations and callbacks are and whatever the client wrote so far: if the client, reading
+   what the server wrote, reports an established session, then the server sent an established envelope bearing
+   its session id after an Authenticate call answered with a known role and a Register call for that identity,
+   and the node and session id the client holds are the ones the server announced. *)
+Theorem C03_client_established_only_with_an_authenticated_server : forall wire snode sc o cc cins,
+  let sr := server_on sc o cins in
+  let cr := client_on cc (s_out wire snode (rr_trace sr)) in
+  build_ok cr = true ->
+  exists pre ss enc post f sch cred encA encR round n,
+    rr_trace sr = pre ++ Sent ss enc :: post /\ ss_state ss = SEstablished /\ ss_id ss = sc_sid sc /\
+    In (AuthCall f sch cred encA) pre /\ o_auth o f sch cred round = ARole /\
+    In (RegCall f encR) pre /\ o_reg o f = RNode n /\
+    uc_local (snd (fst cr)) = n /\ uc_sid (snd (fst cr)) = sc_sid sc.
+Proof. exact client_established_only_with_an_authenticated_server. Qed.
+Print Assumptions C03_client_established_only_with_an_authenticated_server.
